@@ -715,8 +715,10 @@ impl Fiber {
     // grab the appropriate exception handler
     let exception_handler = match self.exception_handler() {
       Some(exception_handler) => {
+        // the bottom frame itself belongs to the code that called into
+        // native code so its handlers run once the native has returned
         let bottom_frame = bottom_frame.unwrap_or(0);
-        if exception_handler.call_frame_depth() >= bottom_frame {
+        if exception_handler.call_frame_depth() > bottom_frame {
           exception_handler
         } else {
           return UnwindResult::UnwindStopped;
